@@ -60,16 +60,27 @@ def one_run(seed, n_queue, n_direct_seqs):
         return FakeSocket(rng, writes, scale)
 
     queued, direct = [], []
+    # in some runs the adapter exists and has been handed its first messages BEFORE any event loop runs (a device that
+    # queues a header from its constructor, as configurations are instantiated by build_simulation outside the loop)
+    early = None
+    n_early = 0
+    if n_queue and rng.random() < 0.3:
+        early = ZeroMqPushAdapter()
+        n_early = rng.randrange(1, min(n_queue, 3) + 1)
+        for i in range(n_early):
+            msg = [b"q%d" % i, {"n": i}] if i % 2 else [b"q%d" % i]
+            queued.append(msg)
+            early.add_message_to_stream(msg)
 
     async def main(loop):
         io = ZeroMqPushIo(socket_factory=factory)
-        adapter = ZeroMqPushAdapter()
+        adapter = early if early is not None else ZeroMqPushAdapter()
         start_first = rng.random() < 0.5
         tasks = []
         if start_first:
             tasks.append(asyncio.ensure_future(io.setup(adapter, None)))
         k = 0
-        for i in range(n_queue):
+        for i in range(n_early, n_queue):
             msg = [b"q%d" % i, {"n": i}] if i % 2 else [b"q%d" % i]
             queued.append(msg)
             adapter.add_message_to_stream(msg)
